@@ -98,10 +98,16 @@ class ModuleInfo:
             elif isinstance(st, ast.AnnAssign) and isinstance(st.target, ast.Name) and st.value:
                 self.assigns[st.target.id] = st.value
             elif isinstance(st, ast.If):
-                # module-level version switches: index both arms (else first so that
-                # the `if` arm – the branch for current NumPy ≥ 2 – wins on name clash)
-                self._index(st.orelse, top=False)
-                self._index(st.body, top=False)
+                # module-level version switches: index both arms; the arm for the current
+                # NumPy (>= 2) wins on a name clash: the `if` arm of `X >= v`, the `else`
+                # arm of `X < v`
+                test = ast.unparse(st.test)
+                if "VERSION <" in test and ">=" not in test:
+                    self._index(st.body, top=False)
+                    self._index(st.orelse, top=False)
+                else:
+                    self._index(st.orelse, top=False)
+                    self._index(st.body, top=False)
 
 
 class Repo:
